@@ -5,6 +5,7 @@
 // Everything a scenario constructs -- arguments, results, temporaries, the collection of split, the four objects of an
 // operation sequence (three named ones and the result object, which is the object an operation returned) -- is a local of its branch in one(), i.e. it is DESTROYED before rec.paired() closes the recorded window:
 // the buffers still owned by result objects when the scenario ends are part of the pairing observation.
+// `:col`: ONE SimpleStringCollection through a history of split (delimiter of any length) / allocate / col[i] = s / size() / col[i].
 // Observation: <value tokens> <reference agrees 0|1> <allocator pairing 0|1>
 #include <string>
 #include <memory>
@@ -62,6 +63,16 @@ static std::string refOrdinal(unsigned n) { char b[32]; unsigned two = n % 100, 
 static std::string refMasked(unsigned long v, unsigned long m, size_t bc) { size_t bits = bc > 8 ? 64 : bc * 8; std::string e; for (size_t i = 0; i < bits; i++) { size_t k = bits - 1 - i; e += ((m >> k) & 1) ? (((v >> k) & 1) ? '1' : '0') : 'x'; if (i % 8 == 7 && i != bits - 1) e += ' '; } return e; }
 static std::string refBinary(const unsigned char* p, size_t n) { std::string e; char b[8]; for (size_t i = 0; i < n; i++) { snprintf(b, sizeof b, i ? " %02X" : "%02X", p[i]); e += b; } return e; }
 static std::vector<std::string> refSplit(const std::string& A, char dc) { std::vector<std::string> e; size_t pos = 0; for (;;) { size_t f = A.find(dc, pos); if (f == std::string::npos) { if (pos < A.size()) e.push_back(A.substr(pos)); break; } e.push_back(A.substr(pos, f + 1 - pos)); pos = f + 1; } if (A.empty()) e.push_back(std::string()); return e; }
+// split with a delimiter of any length, written from the statement (not from the code): a token ends one byte behind the START of an occurrence of D
+// (occurrences may overlap; the empty delimiter occurs at every byte), the rest is the last token unless A ends with D
+static std::vector<std::string> refSplitStr(const std::string& A, const std::string& D)
+{
+    std::vector<std::string> e; size_t pos = 0;
+    while (pos < A.size()) { size_t f = A.find(D, pos); if (f == std::string::npos || f >= A.size()) break; e.push_back(A.substr(pos, f + 1 - pos)); pos = f + 1; }
+    bool ends = A.size() >= D.size() && A.compare(A.size() - D.size(), D.size(), D) == 0;
+    if (!ends) e.push_back(A.substr(pos));
+    return e;
+}
 static std::string le8(size_t n) { std::string r; for (int k = 0; k < 8; k++) r += (char)((n >> (8 * k)) & 0xff); return r; }
 // an object constructed DIRECTLY from the value f returns (C++17: the returned prvalue initialises the member, no copy)
 struct Holder { SimpleString s; template <class F> explicit Holder(F f) : s(f()) {} };
@@ -182,6 +193,34 @@ static void one(Toks& t, Out& o)
             std::vector<std::string> v; for (int i = 0; i < 4; i++) { v.push_back(O(i).asCharString()); ref = ref && v[i] == refv[i]; }
             for (auto& e : log) v.push_back(e);
             val = listTok(v);
+        }
+    }
+    else if (op == ":col") {
+        // ONE SimpleStringCollection through a history of steps: <nops> then :sp text delimiter | :al n | :put i text | :sz | :get i | :snap.
+        // value = the log of the observers, then the collection as it is at the end (size, every element, the element behind the last).
+        // After EVERY step the whole collection is also compared with the reference list (size, every element, three reads outside the range).
+        int n = t.n();
+        std::vector<std::string> items, log;
+        {
+            SimpleStringCollection col;
+            auto snap = [&](std::vector<std::string>& out) { size_t sz = col.size(); out.push_back(le8(sz)); if (sz > 70000) { out.push_back("size?"); return; }
+                for (size_t i = 0; i < sz; i++) out.push_back(col[i].asCharString()); out.push_back(col[sz].asCharString()); };
+            auto same = [&]() { bool ok = col.size() == items.size(); for (size_t i = 0; ok && i < items.size(); i++) ok = items[i] == col[i].asCharString();
+                return ok && std::string(col[items.size()].asCharString()).empty() && std::string(col[items.size() + 7].asCharString()).empty() && std::string(col[SimpleString::npos].asCharString()).empty(); };
+            ref = ref && same();
+            for (int k = 0; k < n; k++) {
+                std::string w = t.next();
+                if (w == ":sp") { t.bytes(A); t.bytes(B); Cs a(A), d(B); SimpleString s(a.p), dd(d.p); s.split(dd, col); items = refSplitStr(A, B); ref = ref && s == SimpleString(a.p) && dd == SimpleString(d.p); }
+                else if (w == ":al") { size_t m = t.u(); col.allocate(m); items.assign(m, std::string()); }
+                else if (w == ":put") { size_t i = t.u(); t.bytes(A); Cs a(A); col[i] = SimpleString(a.p); if (i < items.size()) items[i] = A; }
+                else if (w == ":sz") { log.push_back(le8(col.size())); }
+                else if (w == ":get") { size_t i = t.u(); log.push_back(col[i].asCharString()); }
+                else if (w == ":snap") { snap(log); }
+                else { fprintf(stderr, "bad col op %s\n", w.c_str()); exit(3); }
+                ref = ref && same();
+            }
+            snap(log);
+            val = listTok(log);
         }
     }
     else { fprintf(stderr, "bad op %s\n", op.c_str()); exit(3); }
